@@ -261,8 +261,8 @@ func c06OracleOtlp(r *h.Result, c *c06OtlpCase, rd *c06ReadResult) {
 	for i, fs := range spans {
 		s := fs.span
 		merged := append(append([]*v11.KeyValue{}, s.Attributes...), fs.res...)
-		got := &trace.Span{}
-		if rd.Spans[i] == nil || proto.Unmarshal(rd.Spans[i], got) != nil {
+		got := c06SpanOf(rd.Spans[i])
+		if got == nil {
 			V("C06/otlp-read-nil", fmt.Sprintf("span %d read back as nil", i))
 			continue
 		}
@@ -438,8 +438,8 @@ func c06OracleZip(r *h.Result, c *c06ZipCase, rd *c06ReadResult) {
 	}
 	for i, s := range c.spans {
 		e, row := &s.Exp, w.Rows[i]
-		got := &trace.Span{}
-		if rd.Spans[i] == nil || proto.Unmarshal(rd.Spans[i], got) != nil {
+		got := c06SpanOf(rd.Spans[i])
+		if got == nil {
 			V("C06/zipkin-read-nil", fmt.Sprintf("%s span %d read back as nil", fr, i))
 			continue
 		}
@@ -762,7 +762,7 @@ func c06RunForeign(r *h.Result, rng *h.Rng) error {
 			{Key: "service.name", Value: &v11.AnyValue{Value: &v11.AnyValue_StringValue{StringValue: "S"}}}}}
 	pb, _ := proto.Marshal(sp)
 	good := c06Row{Tid: tid, Sid: sid, Ts: 5, Dur: 4, Ptype: 2, Payload: pb}
-	goodTok := "2 " + h.Hex(tid) + " " + h.Hex(sid) + " 5 4 O " + strings.Join(c06SpanTokens(sp, nil), " ")
+	goodTok := "2 " + h.Hex(tid) + " " + h.Hex(sid) + " 5 4 O " + strconv.Itoa(int(pb[0])) + " " + strings.Join(c06SpanTokens(sp, nil), " ")
 	rowTok := func(pt int, payload string) string {
 		return fmt.Sprintf("%d %s %s 5 4 %s", pt, h.Hex(tid), h.Hex(sid), payload)
 	}
@@ -865,8 +865,10 @@ func c06(r *h.Result, rng *h.Rng, tier string, replay string) error {
 		rng = h.NewRng(rp.Seed)
 	}
 	nOtlp, nZip, nPrim := 300, 300, 2000
+	nTree, nView, nMixed, nPrim2 := 260, 150, 60, 600
 	if tier != "quick" {
 		nOtlp, nZip, nPrim = 10000, 10000, 60000
+		nTree, nView, nMixed, nPrim2 = 6000, 3000, 1500, 20000
 	}
 	r.Rule = "otlp: ≤4 resources × ≤5 spans in ≤2 scopes, attribute trees of depth ≤3 over all value kinds, service-name keys over-represented " +
 		"(strings, empty strings, other kinds, duplicates between span and resource), 1/7 of the requests with ids of any length; " +
@@ -880,6 +882,21 @@ func c06(r *h.Result, rng *h.Rng, tier string, replay string) error {
 		return err
 	}
 	if err := c06RunForeign(r, rng.Fork()); err != nil {
+		return err
+	}
+	if err := c06RunTree(r, rng.Fork(), nTree, tier); err != nil {
+		return err
+	}
+	if err := c06RunOtlpView(r, rng.Fork(), nView); err != nil {
+		return err
+	}
+	if err := c06RunMixed(r, rng.Fork(), nMixed); err != nil {
+		return err
+	}
+	if err := c06RunPrims2(r, rng.Fork(), nPrim2); err != nil {
+		return err
+	}
+	if err := c06RunOJson(r, rng.Fork(), nView); err != nil {
 		return err
 	}
 	if err := c06RunPrims(r, rng.Fork(), nPrim); err != nil {
